@@ -362,6 +362,8 @@ def runConcSection (r : Report) (s : Section) : Report := Id.run do
       let implValues := kvStr l.obs "values" "?"
       if want ≠ implValues then
         r := r.violation s.idx l.idx s!"view-differs-from-registry spec=[{want}] impl=[{implValues}] excl={decide (excl = true)} op=[{joinSp l.op}] (concurrent writers)"
+      if kvStr l.obs "panics" "0" ≠ "0" then
+        r := r.violation s.idx l.idx s!"concurrent-read-panicked panics={kvStr l.obs "panics" "?"} op=[{joinSp l.op}]"
       let races := kvStr l.obs "races" "?"
       if races ≠ "0" then
         r := r.violation s.idx l.idx s!"data-race-detected races={races} op=[{joinSp l.op}]"
